@@ -108,9 +108,9 @@ func c14() {
 				case 0: // same password rewrite of a back-dated record (what an upgrade does)
 					pw = pws[u]
 					op = "rewrite-same-password"
-					c14Backdate(base, u)
+					c14Backdate(rng, base, u)
 				case 1:
-					c14Backdate(base, u)
+					c14Backdate(rng, base, u)
 				case 2:
 					def = sets[rng.Intn(len(sets))]
 					op = "update-after-default-switch"
@@ -250,6 +250,7 @@ func c14Backdate(base, u string) {
 	if len(f) != 3 {
 		return
 	}
-	f[1] = fmt.Sprint(time.Now().Unix() - 90*86400)
+	// mostly 90 days back; sometimes ahead of the clock (written on a host whose clock runs ahead, or before the clock was set back)
+	f[1] = fmt.Sprint(time.Now().Unix() + []int64{-90 * 86400, -90 * 86400, 90, 86400, 4102444800 - time.Now().Unix()}[rng.Intn(5)])
 	os.WriteFile(p, []byte(strings.Join(f, ":")), 0600) //nolint:errcheck
 }
